@@ -9,12 +9,15 @@ def tu_check(tu):
     sc = splitcommit.analyse_tu(tu)
     from ..rules import firstbucket
     fb = firstbucket.analyse_tu(tu)
-    return dict(sizes=s, unlink=u, split=sc, fb=fb)
+    from ..rules import pins
+    gh, ghf = pins.ghost_reads_in(tu, ["BTree_deleteNextBucket", "Bucket_deleteNextBucket", "BTree_grow", "BTree_split",
+                                       "BTree_split_root", "bucket_split", "BTree_lastBucket", "_BTree_clear"])
+    return dict(sizes=s, unlink=u, split=sc, fb=fb, ghost=gh, ghost_functions=ghf)
 
 
 def run(tier="quick", seed=0, use_cache=True):
     res = engine.Result("C03")
-    res.rules = ["SIZE-WIRING", "SPLIT-POINT", "UNLINK-STATUS", "PY-UNLINK-STATUS", "SPLIT-COMMIT", "FIRSTBUCKET-INV", "PY-DEL-TAIL"]
+    res.rules = ["SIZE-WIRING", "SPLIT-POINT", "UNLINK-STATUS", "PY-UNLINK-STATUS", "SPLIT-COMMIT", "FIRSTBUCKET-INV", "PY-DEL-TAIL", "GHOST-READ"]
     res.explanation = (
         "Structural necessary conditions of the tree invariants, extracted "
         "from the code of both implementations and compared with the "
@@ -40,10 +43,13 @@ def run(tier="quick", seed=0, use_cache=True):
     out = engine.map_tus("sa.props.C03", "tu_check", use_cache=use_cache)
     for fam, r in sorted(out.items()):
         res.findings.extend(r["sizes"]["findings"], fam)
+        res.findings.extend(r["ghost"], fam)
         res.findings.extend(r["unlink"]["findings"], fam)
         res.findings.extend(r["split"]["findings"], fam)
         res.findings.extend(r["fb"]["findings"], fam)
     res.floor("translation units", len(out), 22)
+    res.count("GHOST-READ", sum(len(r["ghost_functions"]) for r in out.values()))
+    res.floor("split / unlink functions under the pin typestate (OO)", len(out["OO"]["ghost_functions"]), 6)
     res.count("SIZE-WIRING", sum(r["sizes"]["n"] for r in out.values()))
     res.count("UNLINK-STATUS", sum(r["unlink"]["n"] for r in out.values()))
     res.floor("split call sites (OO)", out["OO"]["split"]["stats"]["split_call_sites"], 2)
